@@ -248,24 +248,44 @@ func checkFlagRule(p *load.Program, r *kit.Report) {
 		})
 		bad, badMap := "", ""
 		n, nMap := 0, 0
-		for _, ret := range kit.Returns(f) {
-			if kit.ReturnErrClass(ret) == kit.ErrNonNil {
-				continue
+		// per arm: explore from the found / not-found edges of the Find test and look at every
+		// value the flag operand of a reached return can take on those paths (a single merged
+		// return after helper expansion carries the flag in a phi)
+		armStarts := func(pass bool) []kit.Pt {
+			var out []kit.Pt
+			for _, e := range edgesOf(found, pass) {
+				out = append(out, kit.EdgeStart(e))
 			}
-			if d, _ := kit.DominatedByEdges(f, ret, edgesOf(found, true), nil, p.Pos); !d {
-				// the long-lived map arm: the map keeps every hash seen (trimmed headers included), so
-				// membership alone does not put a header on the most-work chain
-				nMap++
-				if ok, why := flagFromEqual(p, f, kit.RetOperand(ret, flagIdx), ret, longestF); !ok {
-					badMap = why
+			return out
+		}
+		for _, arm := range []bool{true, false} {
+			reach := kit.Reach(f, armStarts(arm), kit.Opts{})
+			for _, ret := range kit.Returns(f) {
+				if !reach.Has(ret) || kit.ReturnErrClass(ret) == kit.ErrNonNil {
+					continue
 				}
-				continue
+				for _, rv := range reach.Resolve(kit.RetOperand(ret, flagIdx), ret) {
+					if cb, isC := kit.ConstBool(rv.V); isC && !cb {
+						continue
+					}
+					at := rv.At
+					if at == nil {
+						at = ret
+					}
+					ok, why := flagFromEqual(p, f, rv.V, at, longestF)
+					if arm {
+						n++
+						if !ok {
+							bad = why
+						}
+					} else {
+						nMap++
+						if !ok {
+							badMap = why
+						}
+					}
+				}
 			}
-			n++
-			if ok, why := flagFromEqual(p, f, kit.RetOperand(ret, flagIdx), ret, longestF); !ok {
-				bad = why
-			}
-			// the helper gets the looked-up height
 		}
 		if n == 0 {
 			bad = "no successful return on the in-memory arm"
@@ -763,7 +783,13 @@ func checkFreshMap(p *load.Program, r *kit.Report, rule string) {
 			}
 			var copies, fresh []ssa.Instruction
 			shared := ""
-			for _, ref := range *a.Referrers() {
+			var refs []ssa.Instruction
+			for v := range seen {
+				if v.Referrers() != nil {
+					refs = append(refs, *v.Referrers()...)
+				}
+			}
+			for _, ref := range refs {
 				switch x := ref.(type) {
 				case *ssa.Store:
 					if x.Addr == ssa.Value(a) {
@@ -798,11 +824,8 @@ func checkFreshMap(p *load.Program, r *kit.Report, rule string) {
 					}
 				}
 			}
-			if len(copies) == 0 && len(fresh) == 0 && shared == "" {
-				// literal without the field: nil map — reads are fine, the first write panics; other
-				// rules (HEIGHT-LABEL) require the writes, so report it here
-				bad = "the new branch gets no heightsMap"
-			}
+			// (an object that gets no map here — a helper that only decodes — is filled by its
+			// caller; the writes themselves are HEIGHT-LABEL's business)
 			r.Check(bad == "", rule, k.key(kit.ShortID(kit.FuncID(f))+"/new-branch-map"), posOf(p, a), "the new Branch gets a fresh heightsMap", bad)
 		})
 	}
